@@ -34,6 +34,8 @@ Definition under (w : world) (i : nat) (f : tmap -> tmap) : world * bool :=
   else let x := get_b w i in
        (tick (put_b w i {| bB := f (bB x); bL := bL x; bD := bD x; bLocks := bLocks x |}), true).
 
+(* the transaction timeout the harness configures (3 s, in ticks of 1/16 s): lock entries are written with it as their TTL *)
+Definition LOCK_TTL : Z := 48.
 (* LockTransactionBackend._lock_updates for key k (single task: the lock is free) *)
 Definition acquire (md : mode) (now : Z) (w : world) (i : nat) (k : key) : world * bool :=
   match md with
@@ -41,7 +43,7 @@ Definition acquire (md : mode) (now : Z) (w : world) (i : nat) (k : key) : world
   | _ =>
       let lk := lock_key_of md k in
       if mems lk (bLocks (get_b w i)) then (w, true)
-      else let '(w1, ok) := under w i (fun b => s_write b now lk (VStr "id") 160) in
+      else let '(w1, ok) := under w i (fun b => s_write b now lk (VStr "id") LOCK_TTL) in
            if ok then let x := get_b w1 i in
                       (put_b w1 i {| bB := bB x; bL := bL x; bD := bD x; bLocks := lk :: bLocks x |}, true)
            else (w1, false)
